@@ -40,4 +40,19 @@ PROPS = {
         real=REAL_CODEC, simulated=SIM_COMMON,
         assumptions=ASSUME_COMMON + ["CBR size accepted when within 0.5+1/12 byte of bitrate*duration/8 (the code rounds in 1/12-byte units)"],
     ),
+    "C01": dict(
+        level="exploration",
+        variants=dict(quick=[("asan", 1), ("asan-fuzzing", 1)], thorough=[("asan", 2), ("asan-fuzzing", 2), ("fixed-asan", 1)]),
+        must_build=["asan"],
+        runs=dict(quick=8000, thorough=200000), secs=dict(quick=50, thorough=700),
+        rule="one evaluation = one simulated receiving session: a decoder of seeded kind (single / multistream with arbitrary mapping / projection, seeded rate, channels, CPU level) fed 15-400 "
+             "decode calls whose packets come from live encoders in the same process after the simulated link has faulted them (drop, dup, reorder, truncate, bit flips in header or body, byte set, "
+             "append, splice, TOC swap, cross-session packet, structured garbage, random bytes) with hostile call shapes (frame_size 0..1 s, fec in {-1,0,1,2}, len 0/short, NULL data) and decoder "
+             "ctl churn (reset, gain, complexity); non-trivial = at least one link fault fired and >=5 decode calls returned samples; distinct = 64-bit signature over the per-call sequence of "
+             "(call shape, frame_size class, fec flag, result class, TOC config, fault-kind mask)",
+        fault_keys=["f_drop", "f_dup", "f_trunc", "f_flip", "f_set", "f_append", "f_splice", "f_tocswap", "f_cross", "f_garbage", "f_random", "f_reorder", "d_reset", "d_gain"],
+        probes_required=["valid_framing_checked", "rx_plc", "rx_fec", "rx_decoded", "rx_err-1", "rx_err-2", "rx_err-4", "mode_silk", "mode_hybrid", "mode_celt", "inspected"],
+        real=REAL_CODEC, simulated=SIM_COMMON,
+        assumptions=ASSUME_COMMON + ["frame_size above one second and NULL data with len>0 on multistream/projection decoders are outside the claim"],
+    ),
 }
